@@ -517,8 +517,9 @@ func (c *checkCtx) confirm(fam string, cs map[string]J) bool {
 	if len(res) != 1 {
 		return true
 	}
+	// ("recorded": the recording family no longer reports the mismatch; the recorded trace is validated like every other)
 	st, _ := res[0]["status"].(string)
-	return st != "ok" && st != "discard"
+	return st != "ok" && st != "discard" && st != "recorded"
 }
 
 func sampleOf(fam string, cs, r map[string]J) J {
@@ -633,7 +634,8 @@ func (c *checkCtx) replayOne(path string) int {
 	_, res := c.replay(rf.Family, cf, replayOpts{workers: 1, opts: rf.Opts})
 	rb, _ := json.MarshalIndent(res[0], "", " ")
 	fmt.Println(string(rb))
-	if st, _ := res[0]["status"].(string); st != "ok" && st != "discard" {
+	// ("recorded": a recording family reported the mismatch while recording - a hang, a crash -, and records the case now)
+	if st, _ := res[0]["status"].(string); st != "ok" && st != "discard" && st != "recorded" {
 		fmt.Printf("VIOLATION property=%s replay=%s\n", c.id, path)
 		return 1
 	}
